@@ -27,7 +27,7 @@ func init() {
 		ID: "C02", Level: "exploration", Primary: "past_basic_validation", EvalCount: "inputs",
 		Rule: "inputs = (a) the complete single-point shape/type mutation set of every canonical request (7 operations x 12 control variants; every node replaced by ~85 BER node kinds, " +
 			"deleted, duplicated, swapped, child lists truncated/extended/reversed, class/tag/constructed-bit flipped, 14 length-octet corruptions), double-point mutations (sampled in quick; complete within " +
-			"the controls subtree and the protocolOp subtree in thorough), (b) seeded random byte streams, byte-level mutations and splices of canonical encodings (plus Go native coverage-guided fuzzing in thorough). " +
+			"the controls subtree and the protocolOp subtree in thorough), (b) seeded random byte streams, byte-level mutations and splices of canonical encodings, two frames on one connection and hostile frames behind a valid Bind on the same connection (plus Go native coverage-guided fuzzing in thorough). " +
 			"Each input is delivered through the in-memory decode hook, over TCP to a server with panic recovery enabled (oracle: 'Caught panic' log record) and over TCP to a server with recovery disabled " +
 			"(oracle: process death). distinct_nontrivial = distinct inputs (by content hash) that got past basicValidation, i.e. were decoded by gldap's own request decoder",
 		Assume: []string{"a panic whose stack has no gldap frame above the runtime (e.g. stack exhaustion inside asn1-ber) is outside 'gldap's own' decoding and is reported as inconclusive",
@@ -438,6 +438,20 @@ func c02TCPInputs(c *Ctx) []c02Input {
 		if c02Feedable(in.In) {
 			out = append(out, in)
 		}
+	}
+	// the same connection may already have served a valid request when the hostile frame arrives: every second
+	// single-point input (all of them in thorough) is fed again behind a valid Bind on the same connection
+	prefix := sber.Message(1, sber.BindRequest(3, []byte("cn=prefix"), []byte("p")), nil).Encode()
+	n := len(c02Singles())
+	if n > len(out) {
+		n = len(out)
+	}
+	step := 2
+	if !c.Quick() {
+		step = 1
+	}
+	for i := 0; i < n; i += step {
+		out = append(out, c02Input{"after-valid-bind|" + out[i].Name, append(append([]byte{}, prefix...), out[i].In...)})
 	}
 	return out
 }
